@@ -14,6 +14,8 @@ CONSTANTS
   Fall = 1
   MaxRounds = 1000000
   MaxConns = 1000000
+  MaxHalf = 1000000
+  WatcherLeaves = {}
   MaxToggles = 1000000
 INVARIANTS PrintBad
 POSTCONDITION TraceAccepted
